@@ -16,6 +16,21 @@ Tie        : correspondence
                accept    real Transaction.append_files deciding on the path alone vs Gen/GenNorm.v append_accepts_path
                hinv     the store built from the real directory before every collection satisfies the invariant of
                         C05_history (hinvb: writer path forms + every retained snapshot fully present; sound by hinvb_sound)
+               logconf  real logging module + DataShardLogger.set_level after random configuration-event histories
+                        (getEffectiveLevel / isEnabledFor of the collector's logger, os.getenv) vs Model/LogConf.v
+               logsites every record a real collection emitted comes from a statement of Gen/GenGCLog.v GC_LOG_SITES at a level
+                        Model/GCConf.v may_emit allows under the configuration observed at that collection
+               envvars  every environment variable the library's source reads is a dimension of harness/lib/procconf.py (or a
+                        table-location variable covered by the S3 spellings)
+Config     : every history runs under a PROCESS-WIDE CONFIGURATION drawn per case (harness/lib/procconf.py: library default,
+             DataShardLogger.set_level(DEBUG / WARNING / CRITICAL), module logger at DEBUG, library level cleared + root DEBUG,
+             logging.disable(INFO), DATASHARD_VERIFY_CHECKSUMS / DATASHARD_S3_USE_CONDITIONAL_WRITES values, random event
+             histories) and may be reconfigured mid-history (op "config"); the library's records are formatted and written to a
+             sink, never suppressed with logging.disable (C05_disable_masks: under it no level-guarded statement is reachable).
+             Gen/GenGCLog.v (translator/gen_gclog.py) is regenerated on every run and fails closed when garbage_collector.py uses
+             its logger for anything but logging statements whose arguments only observe, or reads the environment; the gc_run
+             correspondence predicts every collection WITHOUT the configuration (C05_conf_independent). Distribution in
+             stats.process_configurations.
 Oracle /   : implementation only (independent reader: json + fastavro + pyarrow; no model):
 search       random histories {append (3 path spellings), caller-built files appended from every directory of the table
              (data/, data/sub, metadata/manifests, metadata/inflight, metadata, .locks, other, the root, <location>/data),
@@ -41,25 +56,34 @@ import time
 import traceback
 from typing import Any, Dict, List, Optional, Tuple
 
-from harness.lib import coqbuild, gcs3, gcsim
-from harness.lib.coqio import Nat, to_coq
+from harness.lib import coqbuild, gcs3, gcsim, procconf
+from harness.lib.coqio import Nat, Some, to_coq
 
 LEVEL = "proof"
-THEOREMS = ["C05_norm_agree", "C05_gc_safe", "C05_gc_live", "C05_no_abort", "C05_history", "C05_append_commits", "C05_acceptance_regenerated"]
+THEOREMS = ["C05_norm_agree", "C05_gc_safe", "C05_gc_live", "C05_no_abort", "C05_history", "C05_append_commits", "C05_acceptance_regenerated",
+            "C05_conf_independent", "C05_gc_safe_any_conf", "C05_set_level_enables", "C05_disable_masks", "C05_mod_level_wins"]
 REQ = gcsim.REQ + ["DS.Model.GCHist"]
+REQ_CONF = ["DS.Gen.GenGCLog", "DS.Model.LogConf", "DS.Model.GCConf"]
 TIMEOUT_MS = 24 * 3600 * 1000
 
 MANIFEST_ENTRY = {
     "level_text": "C05_norm_agree (every table-location string, every key under data/ or metadata/), C05_gc_safe, C05_gc_live, "
                   "C05_no_abort, C05_history (induction over unbounded sequential histories, collections with arbitrary faults included), "
                   "C05_append_commits and C05_acceptance_regenerated (the path guards of append_files, regenerated, imply that a manifest "
-                  "entry names a file under data/: the writer-side hypothesis of C05_gc_safe) proved in Coq, for both orders of the "
+                  "entry names a file under data/: the writer-side hypothesis of C05_gc_safe), C05_conf_independent / C05_gc_safe_any_conf (the "
+                  "collection is the same function of the store after every history of process-wide configuration events -- log levels set "
+                  "through DataShardLogger.set_level or anywhere in the logging tree, logging.disable, environment variables -- over a "
+                  "regenerated table of the collector's logging statements, each checked to observe only), C05_set_level_enables / "
+                  "C05_disable_masks / C05_mod_level_wins (which configurations enable which level) proved in Coq, for both orders of the "
                   "collector's preparatory phases, over a call-by-call "
                   "model of GarbageCollector.collect whose path normalisation, marker fallback, marker naming and constants are "
                   "regenerated from the source on every run; the hand-written model is tied to the code by differential execution "
-                  "of every collection of every generated history (outcome, exact deleted set, keep sets, storage-call trace); "
+                  "of every collection of every generated history, each under a drawn process-wide configuration (outcome, exact deleted set, "
+                  "keep sets, storage-call trace, emitted log statements); "
                   "implementation-only oracles with an independent reader search for a failing history",
-    "level_note": "trusted: Coq kernel; translator/gen_norm.py; harness/lib/gcs3.py (in-memory S3 client under the real S3StorageBackend); wf_store (writer-side path forms: data files under data/ "
+    "level_note": "trusted: Coq kernel; translator/gen_norm.py; translator/gen_gclog.py (purity of logging-statement arguments is syntactic: "
+                  "constants, names, attribute/subscript reads, f-strings, len/type; __format__/__str__ of the logged objects is assumed to observe); "
+                  "Model/LogConf.v models Logger.isEnabledFor of a module logger (validated by the 'logconf' correspondence); harness/lib/gcs3.py (in-memory S3 client under the real S3StorageBackend); wf_store (writer-side path forms: data files under data/ "
                   "-- derived from the regenerated acceptance guard of append_files, with posixpath.normpath a parameter that the history "
                   "machine instantiates by the identity because its store has no second spelling of a key --, "
                   "lists and manifests under metadata/, marker naming) proved invariant of the model's writers and checked on every "
@@ -69,7 +93,8 @@ MANIFEST_ENTRY = {
                   "clock value per collection; transactions younger than the 24 h marker abandonment window; S3 spellings run the real "
                   "S3StorageBackend over an in-memory client (collections only: the table is written locally and uploaded); "
                   "the harness runs the code faithfully",
-    "technique": "Coq proof over translator-regenerated path kernel + call-level differential correspondence + history fuzzing",
+    "technique": "Coq proof over translator-regenerated path kernel and logging-statement table + call-level differential correspondence + "
+                 "history fuzzing under drawn process-wide configurations (log levels, environment)",
     "design_ref": "DESIGN.md section 5 C05",
 }
 
@@ -102,8 +127,11 @@ def gen_ops(rng: random.Random, n: int, final_grace: int) -> List[Dict[str, Any]
             ops.append({"op": "expire", "which": rng.randrange(8)})
         elif r < 0.66:
             ops.append({"op": "delete_snapshot", "which": rng.randrange(8)})
-        elif r < 0.76:
+        elif r < 0.73:
             ops.append({"op": "open_tx"})
+        elif r < 0.76:
+            # the application reconfigures the process mid-history (log levels, environment): harness/lib/procconf.py
+            ops.append({"op": "config", "events": procconf.random_events(rng, rng.choice([1, 1, 2]))})
         elif r < 0.80:
             ops.append({"op": rng.choice(["commit_tx", "rollback_tx"])})
         elif r < 0.88:
@@ -155,8 +183,14 @@ def _spell(path: str, spell: int) -> str:
 
 def exec_history(case: Dict[str, Any]) -> Dict[str, Any]:
     """Run one history against the real library. Pure function of `case` (runs in a worker process)."""
-    import logging
-    logging.disable(logging.CRITICAL)
+    # the process-wide configuration the history runs under (log levels, environment) is part of the case; the library's log
+    # records are formatted as in production and written to a sink (NOT suppressed by logging.disable: that is itself a
+    # configuration, and one under which no level-guarded statement of the library ever runs)
+    with procconf.applied(case.get("config") or []):
+        return _exec_history(case)
+
+
+def _exec_history(case: Dict[str, Any]) -> Dict[str, Any]:
     base = case["base"]
     shutil.rmtree(base, ignore_errors=True)
     os.makedirs(base)
@@ -258,6 +292,9 @@ def exec_history(case: Dict[str, Any]) -> Dict[str, Any]:
                     if open_txs:
                         tx, _w = open_txs.pop(0)
                         tx.commit() if kind == "commit_tx" else tx.rollback()
+                elif kind == "config":
+                    for ev in op["events"]:
+                        procconf.apply_event(ev)
                 elif kind == "orphans":
                     for j in range(op["n"]):
                         name = f"orphan_{opi}_{j}"
@@ -332,9 +369,12 @@ def do_collect(t: Any, reader: gcsim.IndepReader, root: str, tp_seen: str, overr
     live = reader.live_protected(now, TIMEOUT_MS)
     snaps = [s.get("manifest_list") or "" for s in reader.snapshots()]
     store = gcsim.store_term(root)
+    conf_seen = procconf.observe()           # what the process configuration amounts to for the collector's logger, right now
+    tap = _LogTap()
     if s3spec is None:
         before = gcsim.list_tree(root)
-        real = gcsim.run_collect(t, grace, now, None, override)
+        with tap:
+            real = gcsim.run_collect(t, grace, now, None, override)
         after = gcsim.list_tree(root)
         problems_after = None
     else:
@@ -347,7 +387,8 @@ def do_collect(t: Any, reader: gcsim.IndepReader, root: str, tp_seen: str, overr
         before = gcs3.tree_of(fake, pre)
         ts = gcs3.open_s3_table(env_prefix, s3_tp, fake)
         tp_seen = s3_tp
-        real = gcsim.run_collect(ts, grace, now, None, None)
+        with tap:
+            real = gcsim.run_collect(ts, grace, now, None, None)
         after = gcs3.tree_of(fake, pre)
         problems_after = [f"object {k} of a retained snapshot is gone" for k in sorted(reach) if k not in after]
     deleted = sorted(set(before) - set(after))
@@ -373,8 +414,31 @@ def do_collect(t: Any, reader: gcsim.IndepReader, root: str, tp_seen: str, overr
     return {"violations": viol, "deleted": deleted_files,
             "expr": f"let st := {store} in ({gcsim.gc_expr(tp_seen, grace, int(now * 1000), TIMEOUT_MS, [], snaps, 'st')}, hinvb {to_coq(snaps)} st)",
             "real": {k: real[k] for k in ("raised", "exc_type", "exc", "phase", "trace", "keep_sets", "unknown")},
-            "before": before, "after": after, "grace": grace, "tp": tp_seen,
+            "before": before, "after": after, "grace": grace, "tp": tp_seen, "conf": conf_seen, "log_sites": sorted(tap.sites),
             "n_reach": len(reach), "n_live": len(live | set(registered)), "n_old": len(old_keys), "n_young": len(young_keys)}
+
+
+class _LogTap:
+    """Records which of the collector's logging statements actually emitted a record: (function name, level). A handler does not
+    change which levels are enabled, so the collection runs exactly as the configuration of the case has it."""
+
+    def __init__(self) -> None:
+        import logging
+        tap = self
+
+        class _H(logging.Handler):
+            def emit(self, record: Any) -> None:
+                tap.sites.add((record.funcName, int(record.levelno)))
+        self.sites: set = set()
+        self._h = _H(level=0)
+        self._lg = logging.getLogger("datashard.garbage_collector")
+
+    def __enter__(self) -> "_LogTap":
+        self._lg.addHandler(self._h)
+        return self
+
+    def __exit__(self, *_a: Any) -> None:
+        self._lg.removeHandler(self._h)
 
 
 # ------------------------------------------------------------------------------------------ shrinking
@@ -414,8 +478,9 @@ def make_cases(ctx) -> List[Dict[str, Any]]:
                 ops = gen_ops(r, length, g)
                 if rep == 0 and sp.startswith("s3:"):
                     ops.insert(len(ops) - 1, {"op": "open_many", "n": 9})
+                cname, cevents = procconf.draw(r, n)
                 cases.append({"spelling": sp, "seed": seed, "ops": ops, "base": os.path.join(ctx.scratch, f"h{n}"),
-                              "schemaless": rep % 2 == 1})
+                              "schemaless": rep % 2 == 1, "config": cevents, "config_name": cname})
                 n += 1
     return cases
 
@@ -444,6 +509,7 @@ def run_histories(ctx) -> None:
     agg = {"histories": len(cases), "ops": 0, "collects": 0, "deleted": 0, "open_tx_at_collect": 0, "op_errors": 0, "collects_with_deletions": 0}
     exprs, recs = [], []
     seen_keys = set()
+    conf_dist: Dict[str, Dict[str, int]] = {"histories": {}, "collections_by_effective_level": {}, "log_statements_that_emitted": {}}
     for case, res in zip(cases, results):
         if "harness_error" in res:
             ctx.proof_problems.append("history harness raised: " + res["harness_error"][-600:])
@@ -453,18 +519,26 @@ def run_histories(ctx) -> None:
         agg["op_errors"] += len(res["op_errors"])
         for v in res["violations"]:
             key = v["key"]
-            payload_case = {"spelling": case["spelling"], "seed": case["seed"], "ops": case["ops"], "schemaless": bool(case.get("schemaless"))}
+            payload_case = {"spelling": case["spelling"], "seed": case["seed"], "ops": case["ops"], "schemaless": bool(case.get("schemaless")),
+                            "config": case.get("config") or [], "config_name": case.get("config_name", "default")}
             if key not in seen_keys and not key.startswith("hang:"):
                 seen_keys.add(key)
                 small = shrink(case, key)
                 payload_case["ops"] = small["ops"]
-            ctx.violation(key, v["what"], payload_case)
+            ctx.violation(key, v["what"] + f" [process configuration {payload_case['config_name']!r}: {payload_case['config']}]", payload_case)
+        conf_dist["histories"][case.get("config_name", "default")] = conf_dist["histories"].get(case.get("config_name", "default"), 0) + 1
         for c in res["collects"]:
-            ctx.count(1, ("collect", case["spelling"], c["grace"], len(c["deleted"]), c["n_reach"], c["n_live"]))
+            ctx.count(1, ("collect", case["spelling"], c["grace"], len(c["deleted"]), c["n_reach"], c["n_live"], c["conf"]["effective"]))
+            lvl = str(c["conf"]["effective"]) + ("" if any(c["conf"]["enabled"]) else "/all-disabled")
+            conf_dist["collections_by_effective_level"][lvl] = conf_dist["collections_by_effective_level"].get(lvl, 0) + 1
+            for fn_lv in c["log_sites"]:
+                k = f"{fn_lv[0]}@{fn_lv[1]}"
+                conf_dist["log_statements_that_emitted"][k] = conf_dist["log_statements_that_emitted"].get(k, 0) + 1
             agg["collects_with_deletions"] += 1 if c["deleted"] else 0
             exprs.append(c["expr"])
             recs.append((case, c))
     ctx.stats["histories"] = agg
+    ctx.stats["process_configurations"] = {k: dict(sorted(v.items())) for k, v in conf_dist.items()}
     if recs:
         case, c = recs[0]
         ctx.sample({"history": {"spelling": case["spelling"], "ops": [o["op"] for o in case["ops"]], "final_collect": {"grace": c["grace"], "deleted": c["deleted"], "reachable": c["n_reach"], "protected_live": c["n_live"]}}})
@@ -491,6 +565,10 @@ def run_histories(ctx) -> None:
                            "note": "the directory written by the real writers does not satisfy hinvb (writer path forms + every retained snapshot fully present)"})
     ctx.correspondence("gc_run", len(recs), bad)
     ctx.correspondence("hinv", len(recs), bad_wf)
+    try:
+        corr_logsites(ctx, recs)
+    except RuntimeError as e:
+        ctx.proof_problems.append("model evaluation failed (logsites): " + str(e)[:600])
 
 
 # ------------------------------------------------------------------------------------------ pure-kernel correspondences
@@ -645,6 +723,68 @@ def corr_accept(ctx) -> None:
     ctx.correspondence("accept", len(paths), bad)
 
 
+# ------------------------------------------------------------------------------------------ process-wide configuration
+_EV_CTOR = {"set_level": "ESetLevel", "lib_level": "ELibLevel", "mod_level": "EModLevel", "root_level": "ERootLevel", "disable": "EDisable"}
+
+
+def conf_term(events: List[List[Any]]) -> str:
+    """A configuration history (harness/lib/procconf.py events) as Model/LogConf.v `conf_run [...] conf_default`."""
+    evs = []
+    for ev in events:
+        if ev[0] == "env":
+            evs.append(f"EEnv {to_coq(ev[1])} " + ("None" if ev[2] is None else f"(Some {to_coq(str(ev[2]))})"))
+        else:
+            evs.append(f"{_EV_CTOR[ev[0]]} ({int(ev[1])})%Z")
+    return "(conf_run [" + "; ".join(evs) + "] conf_default)"
+
+
+def corr_logconf(ctx) -> None:
+    """Model/LogConf.v vs the real logging module + DataShardLogger: after random configuration histories, getEffectiveLevel and
+    isEnabledFor(DEBUG..CRITICAL) of the collector's logger, and os.getenv of the variables the library consults."""
+    rng = ctx.rng
+    hists = [list(v) for v in procconf.NAMED.values()] + [procconf.random_events(rng, rng.randint(1, 6)) for _ in range(60 if ctx.tier == "quick" else 600)]
+    exprs, real = [], []
+    for evs in hists:
+        with procconf.applied(evs):
+            obs = procconf.observe()
+            env = [os.environ.get(k) for k in sorted(procconf.ENV_CHOICES)]
+        real.append((obs["effective"], obs["enabled"], env))
+        c = conf_term(evs)
+        exprs.append(f"(effective {c}, map (enabled {c}) [10; 20; 30; 40; 50]%Z, map (getenv (lc_env {c})) {to_coq(sorted(procconf.ENV_CHOICES))})")
+    got = coqbuild.coq_eval(REQ_CONF, exprs)
+    bad = []
+    for evs, r, g in zip(hists, real, got):
+        # environment values the harness process started with are not the model's: compared only for variables the history set
+        touched = {e[1] for e in evs if e[0] == "env"}
+        genv = [(x.x if isinstance(x, Some) else x) for k, x in zip(sorted(procconf.ENV_CHOICES), g[2]) if k in touched]
+        renv = [x for k, x in zip(sorted(procconf.ENV_CHOICES), r[2]) if k in touched]
+        if g[0] != r[0] or list(g[1]) != list(r[1]) or genv != renv:
+            bad.append({"events": evs, "logging": [r[0], r[1], renv], "model": [g[0], list(g[1]), genv]})
+        ctx.count(1, ("logconf", repr(evs)))
+    ctx.correspondence("logconf", len(hists), bad)
+    # the environment variables the library consults are all known to the configuration generator or are table-location ones
+    known = set(procconf.ENV_CHOICES) | {"DATASHARD_STORAGE_TYPE", "DATASHARD_S3_BUCKET", "DATASHARD_S3_ENDPOINT", "DATASHARD_S3_ACCESS_KEY",
+                                         "DATASHARD_S3_SECRET_KEY", "DATASHARD_S3_REGION", "DATASHARD_S3_PREFIX"}
+    unknown = [v for v in procconf.library_env_vars() if v not in known]
+    ctx.stats["library_env_vars"] = procconf.library_env_vars()
+    ctx.correspondence("envvars", len(procconf.library_env_vars()), [{"variable": v, "note": "read by the library, not a dimension of harness/lib/procconf.py"} for v in unknown])
+
+
+def corr_logsites(ctx, recs: List[Tuple[Dict[str, Any], Dict[str, Any]]]) -> None:
+    """Every record a real collection emitted comes from a logging statement of Gen/GenGCLog.v GC_LOG_SITES at a level the model
+    says is enabled under the configuration observed at that collection (Model/GCConf.v may_emit)."""
+    sites = coqbuild.coq_eval(REQ_CONF, ["GC_LOG_SITES"])[0]
+    table = {(f, int(lv)) for f, lv in sites}
+    bad = []
+    for case, c in recs:
+        enabled = dict(zip(procconf.LEVELS[1:], c["conf"]["enabled"]))
+        for f, lv in c["log_sites"]:
+            if (f, lv) not in table or not enabled.get(lv, False):
+                bad.append({"spelling": case["spelling"], "seed": case["seed"], "config": case.get("config"), "record": [f, lv],
+                            "note": "emitted by a statement outside GC_LOG_SITES or at a level that is not enabled"})
+    ctx.correspondence("logsites", len(recs), bad[:20])
+
+
 # ------------------------------------------------------------------------------------------ driver
 def run(ctx) -> None:
     ctx.rule = ("one evaluation = one real collection inside a generated history, judged by the independent oracle and compared with "
@@ -663,15 +803,15 @@ def run(ctx) -> None:
         "file names are fresh (uuid4 collisions excluded)",
         "the collection reads one clock value (C06 covers collections that overlap commits)",
     ]
-    import logging
-    logging.disable(logging.CRITICAL)
-    ctx.proofs(THEOREMS, gen_files=["GenNorm.v"])
+    procconf.quiet()            # the library's records go to a sink; levels are NOT touched (each case establishes its own)
+    ctx.proofs(THEOREMS, gen_files=["GenNorm.v", "GenGCLog.v"])
     ctx.allow_axioms([])
     run_histories(ctx)          # oracle + gc_run correspondence (the oracle part needs no model)
     try:
         corr_pystr(ctx)
         corr_norm(ctx)
         corr_accept(ctx)
+        corr_logconf(ctx)
     except RuntimeError as e:
         ctx.proof_problems.append("model evaluation failed: " + str(e)[:600])
 
@@ -682,7 +822,7 @@ def replay(ctx, payload) -> int:
         print("replay: payload names a broken proof / correspondence; re-run ./bin/check C05 thorough")
         return 2
     res = exec_history({"spelling": case["spelling"], "seed": case.get("seed"), "ops": case["ops"], "schemaless": bool(case.get("schemaless")),
-                        "base": os.path.join(ctx.scratch, "replay")})
+                        "config": case.get("config") or [], "base": os.path.join(ctx.scratch, "replay")})
     for v in res["violations"]:
         print("replay: STILL FAILS", v["key"], "-", v["what"])
     if not res["violations"]:
